@@ -47,6 +47,9 @@ type Case struct {
 	Callbacks int    `json:"callbacks"`
 	Req       string `json:"req"`   // nil struct unmarshalable nilptr nilmap emptymap
 	Fault     string `json:"fault"` // "" subscribe publish
+	// FaultErr: the error value the failing operation returns ("" a plain error, or one of the
+	// client library's own values: closed draining timeout)
+	FaultErr string `json:"faultErr,omitempty"`
 }
 
 func (c Case) String() string { b, _ := json.Marshal(c); return string(b) }
@@ -62,6 +65,18 @@ type scriptConn struct {
 	sent    int
 }
 
+func (sc *scriptConn) faultErr(what string) error {
+	switch sc.c.FaultErr {
+	case "closed":
+		return nats.ErrConnectionClosed
+	case "draining":
+		return nats.ErrConnectionDraining
+	case "timeout":
+		return nats.ErrTimeout
+	}
+	return errors.New("injected " + what + " failure")
+}
+
 func (sc *scriptConn) Publish(subject string, payload []byte) error {
 	return errors.New("unexpected Publish")
 }
@@ -74,7 +89,7 @@ func (sc *scriptConn) ChanSubscribe(subject string, ch chan *nats.Msg) (*nats.Su
 	sc.mu.Lock()
 	defer sc.mu.Unlock()
 	if sc.c.Fault == "subscribe" {
-		return nil, errors.New("injected subscribe failure")
+		return nil, sc.faultErr("subscribe")
 	}
 	sc.subs++
 	sc.ch = ch
@@ -86,7 +101,7 @@ func (sc *scriptConn) PublishRequest(subject, reply string, data []byte) error {
 	sc.mu.Lock()
 	if sc.c.Fault == "publish" {
 		sc.mu.Unlock()
-		return errors.New("injected publish failure")
+		return sc.faultErr("publish")
 	}
 	sc.pubs = append(sc.pubs, subject+" "+reply)
 	sc.pubData = append(sc.pubData, append([]byte(nil), data...))
@@ -172,6 +187,7 @@ func runCase(c Case) (msg string, p prediction) {
 	p = predict(c)
 	sc := &scriptConn{c: c}
 	var exts []time.Duration
+	others := make([][]time.Duration, c.Callbacks)
 	var cbs []func(time.Duration)
 	for i := 0; i < c.Callbacks; i++ {
 		i := i
@@ -179,6 +195,7 @@ func runCase(c Case) (msg string, p prediction) {
 			if i == 0 {
 				exts = append(exts, d)
 			}
+			others[i] = append(others[i], d)
 		})
 	}
 	var req interface{}
@@ -253,6 +270,11 @@ func runCase(c Case) (msg string, p prediction) {
 	if c.Callbacks > 0 && fmt.Sprint(exts) != fmt.Sprint(p.extensions) {
 		return fmt.Sprintf("extension callbacks saw %v, expected %v", exts, p.extensions), p
 	}
+	for i := range others {
+		if fmt.Sprint(others[i]) != fmt.Sprint(p.extensions) {
+			return fmt.Sprintf("extension callback %d of %d saw %v, expected %v", i, c.Callbacks, others[i], p.extensions), p
+		}
+	}
 	if c.Callbacks > 0 && fmt.Sprint(extsAtReturn) != fmt.Sprint(p.extensions) {
 		return fmt.Sprintf("when SendRequest returned the extension callbacks had seen %v, the pre-responses received before the response announce %v", extsAtReturn, p.extensions), p
 	}
@@ -288,10 +310,11 @@ func runCase(c Case) (msg string, p prediction) {
 func genCase() *rapid.Generator[Case] {
 	return rapid.Custom(func(t *rapid.T) Case {
 		c := Case{TimeoutMs: rapid.SampledFrom([]int{100, 1000, 5000}).Draw(t, "timeout")}
-		c.Callbacks = rapid.IntRange(0, 2).Draw(t, "callbacks")
+		c.Callbacks = rapid.IntRange(0, 3).Draw(t, "callbacks")
 		c.Req = rapid.SampledFrom([]string{"nil", "struct", "nil", "struct", "unmarshalable", "nilptr", "nilmap", "emptymap"}).Draw(t, "req")
 		if rapid.IntRange(0, 9).Draw(t, "faulty") == 0 {
 			c.Fault = rapid.SampledFrom([]string{"subscribe", "publish"}).Draw(t, "fault")
+			c.FaultErr = rapid.SampledFrom([]string{"", "closed", "draining", "timeout"}).Draw(t, "faulterr")
 		}
 		n := rapid.IntRange(0, 6).Draw(t, "nmsg")
 		at := 0
@@ -368,7 +391,7 @@ type faultConn struct {
 
 func (f *faultConn) PublishRequest(subject, reply string, data []byte) error {
 	if f.failPublish {
-		return errors.New("injected publish failure")
+		return nats.ErrConnectionClosed // what a closed client connection reports
 	}
 	return f.Conn.PublishRequest(subject, reply, data)
 }
